@@ -44,7 +44,7 @@ def make_form(rng, i):
     cfg = common.rich_cfg(rng, langs=langs, p_translated=rng.choice([0.6, 0.9]), p_sparse=rng.choice([0.0, 0.3, 0.6]),
                           unsuffixed_too=rng.choice([0.0, 0.4, 0.8]), p_label_ref=0, p_choice_label_ref=0, p_hint=0.5, p_guidance=0.35, p_media=0.35,
                           p_constraint=0.5, p_constraint_msg=0.9, p_required=0.4, p_required_msg=0.8, p_choice_media=0.3, p_section_media=0.15,
-                          p_or_other=rng.choice([0, 0.25]), p_select=0.35, p_search=0, p_trigger=0, p_choice_nolabel=rng.choice([0, 0, 0.25]), delim=rng.choice(["::", "::", ":"]),
+                          p_or_other=rng.choice([0, 0.25]), p_select=0.35, p_search=0, p_trigger=0, p_choice_nolabel=rng.choice([0, 0, 0.25]), delim=rng.choice(["::", "::", ":", ": ", " : ", ":: ", " :: "]),  # the delimiters may have blanks around them
                           p_bind_extra=0, p_instance_extra=0, p_body_extra=0, p_msg_ref=rng.choice([0, 0.4]))
     f = gen.gen_form(rng, cfg)
     mode = i % 4
@@ -485,7 +485,7 @@ def run_shard(ctx):
             form.settings["namespaces"] = (form.settings.get("namespaces", "") + ' ex="http://example.org/ex"').strip()
             cells = {}
             hdrs_now = [h for r_, _ in form.walk() for h in r_.cells] + [h for l_ in form.choices.values() for c_ in l_ for h in c_]
-            dl = ":" if any(":" in h and "::" not in h for h in hdrs_now) else "::"  # the sheet's own delimiter style
+            dl = ":" if (any(":" in h for h in hdrs_now) and not any("::" in h for h in hdrs_now)) else "::"  # the sheet's own delimiter style
             for base in rng.sample(["label", "hint", "guidance_hint", "constraint_message"], rng.randint(2, 4)) + ["label"]:
                 for lg in (rng.sample(langs, rng.randint(1, len(langs))) if langs and rng.random() < 0.7 else [None]):
                     cells[base if lg is None else f"{base}{dl}{lg}"] = f"{base[:4]}.ns.{(lg or 'x')[:2]}"
